@@ -5,6 +5,7 @@ overlay of it, used by the self-test tier: {relative path: source text}); nothin
 from spydrnet is imported or executed.
 """
 import ast
+import re
 import hashlib
 import os
 import sys
@@ -197,6 +198,9 @@ class Module:
 IR_MODULE_OF = {}  # filled from RegisterModule on load
 
 
+_PROPERTY_NAMES = set()
+
+
 class Program:
     """All non-test python modules of spydrnet/ and spydrnet_extension/."""
 
@@ -213,6 +217,7 @@ class Program:
     def _load(self):
         seen = set()
         self._prescan_helpers()
+        self._finish_method_names()
         for root in self.ROOTS:
             top = os.path.join(self.repo, root)
             if not os.path.isdir(top):
@@ -255,8 +260,15 @@ class Program:
                     else:
                         with open(os.path.join(dp, fn), encoding="utf-8") as fh:
                             src = fh.read()
+                    # names of plain functions / methods anywhere in the program (bound methods are stable values, fields are not)
+                    from .unroll import METHOD_NAMES
+                    for m_ in re.finditer(r"^(\s*)def (\w+)\(", src, re.M):
+                        METHOD_NAMES.add(m_.group(2))
+                    for m_ in re.finditer(r"@(?:property|\w+\.setter|\w+\.deleter)\s*\n\s*def (\w+)\(", src):
+                        METHOD_NAMES.discard(m_.group(1))
+                        _PROPERTY_NAMES.add(m_.group(1))
                     has_helper = "AssertionError" in src
-                    has_deco = "wrapper" in src or "wraps(" in src
+                    has_deco = "wrapper" in src or "wraps(" in src or "contextmanager" in src
                     if not (has_helper or has_deco):
                         continue
                     try:
@@ -266,8 +278,15 @@ class Program:
                         if has_deco:
                             from .normalise import _guard_decorators, GLOBAL_DECORATORS
                             GLOBAL_DECORATORS.update(_guard_decorators(t_))
+                        if "contextmanager" in src:
+                            from .normalise import _context_helpers, GLOBAL_CONTEXTS
+                            GLOBAL_CONTEXTS.update(_context_helpers(t_))
                     except SyntaxError:
                         pass
+
+    def _finish_method_names(self):
+        from .unroll import METHOD_NAMES
+        METHOD_NAMES.difference_update(_PROPERTY_NAMES)
 
     def _splice_eager_generators(self):
         """`self._xs = list(self._surviving(excluded))`: a private generator helper consumed on the spot is spliced into its caller
@@ -473,6 +492,13 @@ def reaching_assign(node, name, unpack=False):
                         return s_
                     if any(isinstance(x, ast.Name) and x.id == name and isinstance(x.ctx, ast.Store) for x in ast.walk(s_)):
                         return None
+        # the else clause of a try runs after the protected block ran to its end
+        if isinstance(p, ast.Try) and any(prev is s_ for s_ in p.orelse):
+            for s_ in reversed(p.body):
+                if isinstance(s_, ast.Assign) and any(isinstance(t, ast.Name) and t.id == name for t in s_.targets):
+                    return s_
+                if any(isinstance(x, ast.Name) and x.id == name and isinstance(x.ctx, ast.Store) for x in ast.walk(s_)):
+                    return None
         if isinstance(p, (ast.FunctionDef, ast.AsyncFunctionDef)):
             break
         prev = p
